@@ -99,7 +99,7 @@ pub fn scripted(c: &Case) -> ScriptedCase {
         bounds: vec![(-1e6, 1e6); c.k],
         script: Script::Probe { d, inner: c.inner, jam: c.jam.clone() },
         cfg: OptCfg { steps: c.total_loops.unwrap_or(c.loops).saturating_mul(c.inner).saturating_add(c.extra_steps), inner_steps: c.inner, kt_start: c.kt_start, kt_finish: c.kt_finish, kt_ratio: c.kt_ratio, max_step_size: 1e-6, seed: c.seed, convergence: if c.total_loops.is_some() { Some(1e300) } else { c.convergence }, builder_history: c.builder_history },
-        via_api: c.via_api, aliases: vec![],
+        via_api: c.via_api, aliases: vec![], score_offset: 0.,
     }
 }
 
